@@ -385,6 +385,21 @@ def _s6(program, res):
         except Exception:
             continue
         handled = [handled] if isinstance(handled, str) else list(handled)
+        # a kind whose content is optional in the grammar (`"[" [testlist_comp] "]" -> list`): lark keeps the node and puts None where the content
+        # is absent, so the branch has to test the child for None before it reads it (`[]`, `{}` are what an empty is_in list / mapv table print as)
+        optional_kinds = [k for k in handled if any(len(e) == 0 for e in by_kind.get(k, [])) and any(len(e) == 1 for e in by_kind.get(k, []))]
+        if optional_kinds:
+            child0 = f"{tree_param}.children[0]"
+            child_names = {child0} | {st.targets[0].id for b_ in br.body for st in ast.walk(b_) if isinstance(st, ast.Assign) and len(st.targets) == 1
+                                      and isinstance(st.targets[0], ast.Name) and unparse(st.value) == child0}
+            tests_none = any(isinstance(c, ast.Compare) and isinstance(c.ops[0], (ast.Is, ast.IsNot)) and isinstance(c.comparators[0], ast.Constant) and c.comparators[0].value is None
+                             and unparse(c.left) in child_names for st in br.body for c in ast.walk(st))
+            if tests_none:
+                res.ok("C13-S6", f"walker branch {handled}: an absent (optional) content is tested for before it is read")
+            else:
+                res.fail_at("C13-S6", w, f"optional-content-read-unchecked:{optional_kinds[0]}",
+                            f"the grammar makes the content of {optional_kinds} optional, the walker branch for {handled} reads `children[0]` as if it were there: "
+                            f"x.is_in([]) prints 'x.is_in([])' and x.mapv({{}}, 0.0) prints 'x.mapv({{}}, 0.0)', and neither text can be read back (lark hands None for the absent content)", br)
         # names bound to a child of the node in this branch
         child_of: Dict[str, int] = {}
         for st in ast.walk(br):
